@@ -232,7 +232,132 @@ def r10_5(prog: Program, rep):
                lines(g, path(g, after_loose, bad[0], avoid=set(rescan))) if bad else [])
 
 
+STORE_ENUM_ATTRS = {"packs", "_pack_cache"}
+STORE_ENUM_CALLS = {"_iter_loose_objects", "_update_pack_cache", "_load_packs", "_iter_cached_packs", "listdir", "scandir", "iter_packs"}
+
+
+def _enumerates_store(e: ast.AST) -> str | None:
+    for x in ast.walk(e):
+        if isinstance(x, ast.Attribute) and x.attr in STORE_ENUM_ATTRS and dotted(x.value) == "self":
+            return "self." + x.attr
+        if isinstance(x, ast.Call) and callee_name(x) in STORE_ENUM_CALLS:
+            return callee_name(x) + "()"
+    return None
+
+
+def r10_6(prog: Program, rep):
+    """SAME-SNAPSHOT: what repack / pack_loose_objects delete is what they enumerated BEFORE writing the replacement pack
+    (and therefore collected into it).  A deletion fed by a store enumeration that runs after add_objects removes packs or
+    loose objects that another process added in the meantime - objects that are in no pack of ours."""
+    from sa.flow import reaching_defs
+    from sa.cfg import _walk_shallow
+    n_sites = 0
+    for qual in ("PackBasedObjectStore.pack_loose_objects", "PackBasedObjectStore.repack"):
+        f = prog.func(OS_PY, qual)
+        m = f.module
+        g = cfg_of(prog, f)
+        rd = reaching_defs(g)
+        adds = [i for i, n in g.nodes.items() for c in node_calls(n) if callee_name(c) == "add_objects"]
+        if not adds:
+            raise AnalysisError(f"{qual}: add_objects not found")
+        after_add = reach(g, [b for a in adds for b, l in g.succ[a] if l not in EXC_LABELS], include_srcs=True)
+        for i, n in g.nodes.items():
+            for c in node_calls(n):
+                if callee_name(c) not in ("delete_loose_object", "_remove_pack", "_remove_loose_object") or not c.args:
+                    continue
+                n_sites += 1
+                # trace the deleted value back through loop targets and assignments
+                bad = None
+                seen = set()
+                work = [(i, x.id) for x in ast.walk(c.args[0]) if isinstance(x, ast.Name)]
+                while work and bad is None:
+                    at, name = work.pop()
+                    for d in rd[at].get(name, ()):
+                        if (d, name) in seen:
+                            continue
+                        seen.add((d, name))
+                        dn = g.nodes[d]
+                        src = None
+                        if dn.kind in ("for_iter", "for_init") and isinstance(dn.ast, ast.For):
+                            src = dn.ast.iter
+                        elif dn.kind == "stmt" and isinstance(dn.ast, (ast.Assign, ast.AnnAssign, ast.AugAssign)):
+                            src = dn.ast.value
+                        if src is None:
+                            continue
+                        en = _enumerates_store(src)
+                        if en is not None and d in after_add:
+                            bad = (dn, en)
+                            break
+                        for x in ast.walk(src):
+                            if isinstance(x, ast.Name) and isinstance(x.ctx, ast.Load):
+                                work.append((d, x.id))
+                rep.ob("R10.6", OS_PY, qual, f"`{norm(c, 50)}` deletes only what was enumerated before the replacement pack was written", bad is None,
+                       (f"the deleted value comes from `{bad[1]}` evaluated at line {bad[0].line}, after add_objects: a pack or loose "
+                        f"object that another process added in the meantime is deleted although none of its objects were consolidated")
+                       if bad else "", c.lineno)
+    if n_sites < 4:
+        raise AnalysisError(f"expected >= 4 deletion sites in repack/pack_loose_objects, found {n_sites}")
+
+
+def r10_7(prog: Program, rep):
+    """FRESHEN-OR-WRITE: add_object of the disk store never returns without either having refreshed the mtime of the
+    existing loose file (os.utime succeeded) or having written the loose file.  The grace period of prune/gc is counted
+    from that mtime: an object that is "already there" (loose and stale, or only in an old pack) and is re-added just
+    before a ref is pointed at it must not look old."""
+    from sa.common import is_gitfile_call, gitfile_mode
+    f = prog.func(OS_PY, "DiskObjectStore.add_object")
+    m = f.module
+    g = cfg_of(prog, f)
+    ut = [i for i, n in g.nodes.items() for c in node_calls(n) if dotted(c.func) == "os.utime"]
+    wr = [i for i, n in g.nodes.items() if n.kind == "with_enter" and is_gitfile_call(prog, m, n.ast.items[n.info].context_expr)
+          and "w" in (gitfile_mode(n.ast.items[n.info].context_expr) or "")]
+    if not wr:
+        raise AnalysisError("DiskObjectStore.add_object: the loose-file write (with GitFile(.., 'wb')) was not found")
+    r = reach(g, [g.entry], avoid=set(wr), include_srcs=True, edge_ok=lambda a, b, l: not (a in ut and l not in EXC_LABELS))
+    bad = g.exit_normal in r
+    rep.ob("R10.7", OS_PY, f.qual, "every return follows a successful os.utime of the loose file or the write of the loose file", bool(ut) and not bad,
+           "add_object can return without refreshing or writing the loose file: an object that exists only with an old mtime "
+           "(stale loose file, or only in an old pack) stays old, and a gc with a grace period that runs before the caller "
+           "creates its ref prunes it", f.node.lineno, lines(g, path(g, [g.entry], g.exit_normal, avoid=set(wr))) if bad else [])
+    # the age that prune/gc compare with the grace period is the file's mtime
+    pr = prog.module("dulwich/gc.py")
+    src = "".join(norm(fn.node, 100000) for q, fn in pr.funcs.items() if "prune" in q or "garbage" in q)
+    osrc = norm(prog.func(OS_PY, "DiskObjectStore.get_object_mtime").node, 100000) if prog.module(OS_PY).funcs.get("DiskObjectStore.get_object_mtime") else ""
+    rep.ob("R10.7", OS_PY, "DiskObjectStore.get_object_mtime", "the age compared with the grace period is the mtime of the file that holds the object",
+           "getmtime" in osrc and "get_object_mtime" in src, "", 0)
+
+
+def r10_8(prog: Program, rep):
+    """READ-ORDER loose before packed.  pack_refs writes packed-refs first and unlinks the loose files afterwards, so a
+    reader that looks at the loose files first and at packed-refs second sees every ref in at least one of the two,
+    whatever the interleaving; the opposite order can miss a ref in both (and gc then prunes a whole branch).  In every
+    function of refs.py that consults both, a packed-refs read must be reachable after each loose read."""
+    LOOSE = {"_iter_loose_refs", "read_loose_ref"}
+    m = prog.module("dulwich/refs.py")
+    n = 0
+    for q, f in sorted(m.funcs.items()):
+        if "#" in q:
+            continue
+        g = cfg_of(prog, f)
+        ln = [i for i, nd in g.nodes.items() for c in node_calls(nd) if callee_name(c) in LOOSE]
+        pn = {i for i, nd in g.nodes.items() for c in node_calls(nd) if callee_name(c) == "get_packed_refs"}
+        if not ln or not pn:
+            continue
+        n += 1
+        for i in ln:
+            after = reach(g, [b for b, l in g.succ[i] if l not in EXC_LABELS], include_srcs=True)
+            rep.ob("R10.8", m.rel, q, f"a packed-refs read follows the loose read at `{norm(g.nodes[i].ast, 50)}`", bool(pn & after),
+                   "packed-refs is read before the loose refs and not again afterwards: a concurrent pack_refs (packed-refs "
+                   "written, then loose files unlinked) between the two reads makes a ref invisible in both - "
+                   "find_reachable_objects misses it and gc prunes the branch", g.nodes[i].line)
+    if n < 5:
+        raise AnalysisError(f"expected >= 5 functions in refs.py that read both loose and packed refs, found {n}")
+
+
 def run(prog: Program, rep, tier="quick"):
+    rep.rule("R10.8", "READ-ORDER: refs are read loose first, packed second (the order in which pack_refs moves them)")
+    rep.rule("R10.7", "FRESHEN-OR-WRITE: DiskObjectStore.add_object refreshes the mtime of an existing loose object or writes it - never just returns")
+    rep.rule("R10.6", "SAME-SNAPSHOT: repack/pack_loose_objects delete only packs and loose objects enumerated before add_objects")
     rep.rule("R10.1", "new pack installed before any deletion (NEVER-BEFORE, shared with R09.4)")
     rep.rule("R10.2", "provenance + MUST-PRECEDE: deletions in gc.py take only ids from find_unreachable_objects, behind the "
                       "grace-period gate (or an explicit grace_period=None)")
@@ -250,6 +375,9 @@ def run(prog: Program, rep, tier="quick"):
     r10_3(prog, rep)
     r10_4(prog, rep)
     r10_5(prog, rep)
+    r10_6(prog, rep)
+    r10_7(prog, rep)
+    r10_8(prog, rep)
     rep.floor("R10.1", 4)
     rep.floor("R10.2", 4)
     rep.floor("R10.3", 7)
